@@ -8,6 +8,11 @@ def conc(ex, v, what):
         s = z3.simplify(v)
         if z3.is_bv_value(s) or z3.is_int_value(s):
             return s.as_long()
+        u = ex.unique_value(v)
+        if u is not None:
+            if z3.is_bv(v) and u >= (1 << (v.size() - 1)):
+                u -= 1 << v.size()
+            return u
         raise Unsupported("symbolic %s" % what)
     return v
 
@@ -28,6 +33,11 @@ def b_len(ex, x, ins):
     for g, s in reversed(cs):
         l = s.len
         res = l if res is None else ex.vite(g, l, res, "int")
+    if is_term(res) and z3.is_app_of(res, z3.Z3_OP_ITE):
+        # merged length: often a single value under the current path condition
+        u = ex.unique_value(res)
+        if u is not None:
+            return u
     return res
 
 
@@ -94,9 +104,7 @@ def b_copy(ex, args, ins):
         for i in range(n):
             ex.store_to(Ptr(d.ptr.obj, d.ptr.off + i, d.ptr.sym), bs[i], "uint8")
         return n
-    dl, sl = d.len, s.len
-    if is_term(dl) or is_term(sl):
-        raise Unsupported("copy with symbolic length")
+    dl, sl = conc(ex, d.len, "copy length"), conc(ex, s.len, "copy length")
     n = min(dl, sl)
     vals = [ex.load(Ptr(s.ptr.obj, s.ptr.off + i * stride, s.ptr.sym), elem) for i in range(n)]
     for i in range(n):
